@@ -124,10 +124,10 @@ func runPipeline(g *scheduler.ExecutionGraph, taskRunner *runner.TaskRunner, sum
 	}()
 
 	err := sd.Schedule(g)
+	sd.Finish()
 	if err != nil {
 		return err
 	}
-	sd.Finish()
 
 	fmt.Fprint(os.Stdout, "\r\n")
 
@@ -140,13 +140,9 @@ func runPipeline(g *scheduler.ExecutionGraph, taskRunner *runner.TaskRunner, sum
 
 func runTask(t *task.Task, taskRunner *runner.TaskRunner) error {
 	err := taskRunner.Run(t)
-	if err != nil {
-		return err
-	}
-
 	taskRunner.Finish()
 
-	return nil
+	return err
 }
 
 func taskArgs(c *cli.Context) []string {
